@@ -236,6 +236,19 @@ pub fn run_model(
     ))
 }
 
+/// The model's prediction for `generate_module_token_stream_from_string`, in the order the code
+/// works: the query text is parsed first (a parse error is an `Err`), then the schema file is loaded
+/// (a schema text that does not parse makes the loader panic), then resolve + codegen (the model).
+pub fn predict(model: &mut Model, schema_text: &str, is_json: bool, query_text: &str, opts: &Opts) -> Sexp {
+    if let Err(e) = graphql_parser::parse_query::<String>(query_text) {
+        return tagged("err", vec![st(&format!("Query parser error: {}", e))]);
+    }
+    match schema_src_sexp(schema_text, is_json) {
+        Ok(src) => run_model(model, &src, schema_text, query_text, opts),
+        Err(e) => tagged("panic", vec![st(&e)]),
+    }
+}
+
 /// Compare the IR of one real module with one model module: item multisets (order-insensitive),
 /// header fields exactly.  Returns human-readable differences.
 pub fn diff_modules(real: &Sexp, model: &Sexp) -> Vec<String> {
